@@ -901,6 +901,25 @@ Proof.
   simpl in R. apply andb_true_iff in R. destruct R as [R _]. rewrite R. reflexivity.
 Qed.
 
+(* the DoS chain sits in no refuted position and has no event exclusion *)
+Lemma consulted_dos_hop_pos e cl r p k ky :
+  k = KDosPolicy \/ k = KDosLogConf -> In (p, (k, ky)) (consulted e cl r) -> refuted_pos e p k = false.
+Proof. intros [->| ->] _; destruct p; reflexivity. Qed.
+
+Theorem dos_chain_events :
+  forall e cl r p k ky ns name o relevant,
+    k = KDosPolicy \/ k = KDosLogConf ->
+    cluster_wf cl -> resource_wf r -> valid_name ns -> valid_name name ->
+    In (p, (k, ky)) (consulted e cl r) -> ky = key ns name ->
+    (o = Update -> relevant = true) ->
+    event_reaches e cl k o relevant ns name r = true.
+Proof.
+  intros e cl r p k ky ns name o relevant K WF RWF Vns Vname H Hk SV.
+  eapply event_reaches_partial; try eassumption.
+  - eapply consulted_dos_hop_pos; eassumption.
+  - intros E. destruct K as [->| ->]; discriminate E.
+Qed.
+
 (* ------------------------------------------------------------------ the repaired code *)
 
 Lemma refuted_pos_fixed e p k :
